@@ -134,7 +134,10 @@ def critical_probes(bounds, extra=()):
                  Version.parse(base.text + "+local.1"), base.next_patch(), base.next_minor(), base.next_major(),
                  base.next_patch().first_devrelease(), base.next_major().first_devrelease(),
                  Version.parse(base.text + "rc1"), Version.parse(base.text + ".post1.dev0"),
-                 Version.parse(e.to_string().split("+")[0] + "+zz")]
+                 Version.parse(e.to_string().split("+")[0] + "+zz"),
+                 # two adjustments at once: a post-/pre-/dev-release of the bound's release that also carries a local label
+                 Version.parse(base.text + ".post1+local.1"), Version.parse(base.text + ".post2.dev1+7"),
+                 Version.parse(base.text + "a1+local"), Version.parse(base.text + ".dev0+local")]
         if e.release.precision < 4:
             cands.append(Version.parse(base.text + ".0.1"))
         for c in cands: add(c)
